@@ -148,6 +148,15 @@ CLAIMED = {
              'Path.length / length(T0,T1) on stub segments (shared with C05).',
         note='NOT claimed: that QUADPACK / the chord recursion converge to the true arc length of cubics and arcs (C/Fortran behind a boundary, no closed form), the cusp clause, cancellation for nearly collinear control points. The ds/dt1 = speed query currently comes back unknown from z3 within 120 s and is reported inconclusive (hand-normalised form is unsat in ms; see DESIGN).',
         design='3/C06'),
+    'C20': dict(
+        text='smoothed_path / smoothed_joint run on polylines with symbolic maxjointsize and tightness: open path (0,0)->(4,0)->V2 with '
+             'symbolic V2 (all corner angles with |sin|>=0.05, second edge from 0.01 to ~30 long), a concrete closed triangle and a '
+             'concrete closed quadrilateral whose closing joint is already smooth (thorough: symbolic closed shapes, 4-point paths).  z3 '
+             'decides with an oracle independent of unit_tangent: result continuous (closed stays closed, no repeated segment), end/start '
+             'directions of consecutive segments parallel with positive dot product (no kink), open path keeps its end points, elbow control '
+             'points within maxjointsize/2 of the corner, trimmed lines are sub-segments of the originals; one-segment path unchanged.',
+        note='Cubic-cubic and line-cubic joints are outside (they chain ilength/cropped/radialrange: C07/C09/C13). Corner angles bounded away from 0/180 degrees. Reals.',
+        design='3/C20'),
 }
 
 NOT_YET = 'check not built yet in this round (see DESIGN.md section 3 for the plan)'
